@@ -612,9 +612,10 @@ def applyAttrTransforms (X : Ctx) (obj : Ref) : List (Nat × Cb) → M Unit
     (if tv != .sc .missing then setAttr X obj a tv false else pure ())
     applyAttrTransforms X obj rest
 
-/-- `with thawed(value) if not inplace else _rollback_on_error(value)`. -/
+/-- `with thawed(value) if not inplace else nullcontext(), _rollback_on_error(value)`:
+the dict of the edited value is restored on error whether or not it was copied (03237db). -/
 def guarded {α} (X : Ctx) (inplace : Bool) (v : Ref) (body : M α) : M α :=
-  if inplace then rollbackOnError v body else thawed X v body
+  if inplace then rollbackOnError v body else thawed X v (rollbackOnError v body)
 
 /-- Step 5 of `mutate_value`: left-over keyword attributes. Result: (value, mutate_safe). -/
 def mvAttrs (X : Ctx) (p : MV) (value : Ref) (safe used : Bool) : M (Ref × Bool) :=
